@@ -2,9 +2,13 @@
 """Regenerates coq/gen/GenUnionTable.v from schema/union_variants_per_type_lookup.rs:
 the UnionVariantLookupKey order, N_VARIANTS, and per schema node kind the
 register_type_name / register_name / register(key, priority) calls."""
-import re, sys
-sys.path.insert(0, __file__.rsplit("/", 1)[0])
+import os, re, sys
+sys.path.insert(0, os.path.dirname(os.path.abspath(__file__)))
 from rustexpr import TranslateError
+import rustmatch as R
+import rustast as A
+import rustnorm as N
+from rustmatch import ShapeError
 
 KINDS = ["Null", "Boolean", "Int", "Long", "Float", "Double", "Bytes", "String", "Array", "Map",
          "Union", "Record", "Enum", "Fixed", "Decimal", "BigDecimal", "Uuid", "Date", "TimeMillis",
@@ -12,63 +16,198 @@ KINDS = ["Null", "Boolean", "Int", "Long", "Float", "Double", "Bytes", "String",
 KEYS = ["Null", "UnitStruct", "Boolean", "Integer", "Integer4", "Integer8", "Float4", "Float8", "Str",
         "SliceU8", "UnitVariant", "StructOrMap", "SeqOrTupleOrTupleStruct"]
 
-def balanced(src, i):
-    """src[i] == '{' ; returns index just after the matching '}'"""
-    depth = 0
-    k = i
-    while k < len(src):
-        c = src[k]
-        if c == "{":
-            depth += 1
-        elif c == "}":
-            depth -= 1
-            if depth == 0:
-                return k + 1
-        k += 1
-    raise TranslateError("unbalanced braces")
-
 def strip_comments(s):
     return re.sub(r"//[^\n]*", "", s)
 
+# The code around the registration table, pinned in canonical form (rustnorm.py: locals renamed in binding order,
+# formatting / comments / message texts / let-vs-inline differences removed). `__ARMS__` stands for the
+# `match schema_node.as_ref() { .. }` whose arms are the table. Its meaning is written by hand in model/Schema.v.
+PIN_NEW = """
+    #[derive(Clone, Copy)]
+    enum NoneSomeOrConflict<'a> {
+        None,
+        Some { priority: usize, discriminant_and_schema_node: (i64, NodeRef<'a>) },
+        Conflict { priority: usize },
+    }
+    let mut per_direct_union_variant = [NoneSomeOrConflict::None; N_VARIANTS];
+    let per_name = std::cell::RefCell::new(HashMap::new());
+    let per_alias = std::cell::RefCell::new(HashMap::new());
+    for (discriminant, &schema_node) in variants.iter().enumerate() {
+        let discriminant: i64 = discriminant.try_into().expect("_");
+        let mut register = |variant: UnionVariantLookupKey, priority: usize| {
+            let val = &mut per_direct_union_variant[variant as usize];
+            match *val {
+                NoneSomeOrConflict::None => {
+                    *val = NoneSomeOrConflict::Some { discriminant_and_schema_node: (discriminant, schema_node), priority }
+                }
+                NoneSomeOrConflict::Some { priority: old_priority, .. } => {
+                    match old_priority.cmp(&priority) {
+                        Ordering::Less => {}
+                        Ordering::Equal => { *val = NoneSomeOrConflict::Conflict { priority: old_priority }; }
+                        Ordering::Greater => {
+                            *val = NoneSomeOrConflict::Some { priority, discriminant_and_schema_node: (discriminant, schema_node) };
+                        }
+                    }
+                }
+                NoneSomeOrConflict::Conflict { priority: old_priority } => {
+                    if priority < old_priority {
+                        *val = NoneSomeOrConflict::Some { priority, discriminant_and_schema_node: (discriminant, schema_node) };
+                    }
+                }
+            }
+        };
+        let register_name = |name: &Name| {
+            per_alias.borrow_mut().insert(Cow::Owned(name.name().to_owned()), (discriminant, schema_node));
+            per_name.borrow_mut().insert(Cow::Owned(name.fully_qualified_name().to_owned()), (discriminant, schema_node));
+        };
+        let register_type_name_alias = |type_name: &'static str| {
+            per_alias.borrow_mut().insert(Cow::Borrowed(type_name), (discriminant, schema_node));
+        };
+        let register_type_name = |type_name: &'static str| {
+            per_name.borrow_mut().insert(Cow::Borrowed(type_name), (discriminant, schema_node));
+        };
+        __ARMS__
+    }
+    let per_direct_union_variant = per_direct_union_variant.map(|v| match v {
+        NoneSomeOrConflict::None => None,
+        NoneSomeOrConflict::Some { discriminant_and_schema_node, .. } => Some(discriminant_and_schema_node),
+        NoneSomeOrConflict::Conflict { .. } => None,
+    });
+    let mut per_name = per_name.into_inner();
+    for (alias, variant) in per_alias.into_inner() {
+        per_name.entry(alias).or_insert(variant);
+    }
+    PerTypeLookup { per_name, per_direct_union_variant }
+"""
+PIN_UNNAMED = "self.per_direct_union_variant[variant as usize].map(|(i, n)| (i, n.as_ref()))"
+PIN_NAMED = "self.per_name.get(name).copied().map(|(i, n)| (i, n.as_ref()))"
+ROLES = ["register", "register_name", "register_type_name_alias", "register_type_name"]
+
+def canon(body_toks, env, path, params):
+    b = N.normalize_body(A.parse_block_tokens(body_toks), env, path, "PerTypeLookup")
+    return b, {p: ["__p%d" % i] for i, p in enumerate(params)}
+
+def is_arms_match(e):
+    return e[0] == "match" and A.text(e[1]) == "schema_node . as_ref ( )"
+
+def split_new(body):
+    """the normalised body of PerTypeLookup::new -> (body with the registration match replaced by `__ARMS__`,
+    the match, the names of the four closures in the order of their `let`s)"""
+    found = []
+    def go(x):
+        if is_arms_match(x):
+            found.append(x)
+            return N.path_of("__ARMS__")
+        if x[0] == "closure":
+            return x
+        return N.map_expr(x, go)
+    nb = go(body)
+    if len(found) != 1:
+        raise TranslateError("registration match not found")
+    names = []
+    def loops(x):
+        if x[0] == "for":
+            for st in x[3][1]:
+                if st[0] == "let" and st[3] is not None and st[3][0] == "closure" and st[1][0] == "p_ident":
+                    names.append(st[1][3])
+        if x[0] != "closure":
+            N.map_expr(x, loops)
+        return x
+    loops(nb)
+    return nb, found[0], names
+
+def params_of(fn):
+    return [pat[0] for pat, ty in fn.params if ty and len(pat) == 1]
+
 def translate(path):
+    try:
+        return translate_(path)
+    except ShapeError as e:
+        raise TranslateError(str(e))
+
+def translate_(path):
     src = strip_comments(open(path).read())
+    apath = os.path.abspath(path)
+    env = N.ConstEnv(None)
+    items = env.items(apath)
     m = re.search(r"enum\s+UnionVariantLookupKey\s*\{(.*?)\}", src, re.S)
     if not m:
         raise TranslateError("UnionVariantLookupKey not found")
     keys = [k.strip() for k in m.group(1).split(",") if k.strip()]
     if sorted(keys) != sorted(KEYS):
         raise TranslateError("UnionVariantLookupKey variants changed: %s" % keys)
-    m = re.search(r"const\s+N_VARIANTS\s*:\s*usize\s*=\s*(\d+)\s*;", src)
-    if not m:
+    nvar = env.lookup("N_VARIANTS", apath)
+    if not isinstance(nvar, int):
         raise TranslateError("N_VARIANTS not found")
-    nvar = int(m.group(1))
-    m = re.search(r"match\s+schema_node\.as_ref\(\)\s*\{", src)
-    if not m:
-        raise TranslateError("registration match not found")
-    body_start = m.end() - 1
-    body_end = balanced(src, body_start)
-    body = src[body_start + 1:body_end - 1]
-    # split into arms: SchemaNode::Kind(pattern)? => { ... }
+    def the_fn(name):
+        fns = [f for f in items.fns if f.name == name and f.owner == (None, "PerTypeLookup") and f.body is not None]
+        if len(fns) != 1:
+            raise TranslateError("PerTypeLookup::%s not found" % name)
+        return fns[0]
+    # the code around the table is in the pinned shape
+    for name, pin in (("unnamed", PIN_UNNAMED), ("named", PIN_NAMED)):
+        f = the_fn(name)
+        b, outer = canon(f.body, env, apath, params_of(f))
+        pb, pouter = canon(R.tokenize(pin), env, apath, params_of(f))
+        if N.canonical_text(b, outer, statements=True) != N.canonical_text(pb, pouter, statements=True):
+            raise TranslateError("the code of %s is not in the pinned shape" % name)
+    f = the_fn("new")
+    body, outer = canon(f.body, env, apath, params_of(f))
+    body, arms_match, closure_names = split_new(body)
+    pbody, _ = canon(R.tokenize(PIN_NEW), env, apath, params_of(f))
+    pbody, pm, _ = split_new(N.substitute(pbody, {"__ARMS__": ("match", A.parse_expr_tokens(R.tokenize("schema_node.as_ref()")), ())}))
+    got, want = N.canonical_text(body, outer, statements=True), N.canonical_text(pbody, outer, statements=True)
+    if got != want:
+        k = 0
+        while k < min(len(got), len(want)) and got[k] == want[k]:
+            k += 1
+        raise TranslateError("the code of PerTypeLookup::new around the registration table is not in the pinned shape (near: %s)" % got[max(0, k - 60):k + 60])
+    if len(closure_names) != 4:
+        raise TranslateError("expected the four registration closures, found %r" % closure_names)
+    role = dict(zip(closure_names, ROLES))
+    # the arms
+    def calls_of(stmts, binders):
+        """statements of an arm -> [(role, argument expr)] ; nested `match repr` returned as ("match", expr)"""
+        out = []
+        for st in stmts:
+            if st[0] not in ("semi", "expr"):
+                raise TranslateError("unrecognised statement in an arm: %s" % st[0])
+            e = st[1]
+            if e[0] == "call" and N.is_var(e[1]) and e[1][1][0][0] in role:
+                out.append((role[e[1][1][0][0]], e[2]))
+            elif e[0] == "match":
+                out.append(("match", e))
+            else:
+                raise TranslateError("unrecognised statements in arm: %r" % A.text(e)[:80])
+        return out
+    def str_arg(args, what):
+        if len(args) != 1 or args[0][0] != "lit" or not args[0][1].startswith('"'):
+            raise TranslateError("%s: argument is not a string literal" % what)
+        return args[0][1][1:-1]
+    def field_binder(pat, field):
+        """`Kind(Type { field, .. })` / `Kind(Type { field: x, .. })` -> the name bound to the field, else None"""
+        if pat[0] == "p_ts" and len(pat[2]) == 1:
+            q = pat[2][0]
+            while q[0] == "p_ref":
+                q = q[2]
+            if q[0] == "p_struct":
+                for n, b in q[2]:
+                    if n == field and b[0] == "p_ident":
+                        return b[3]
+        return None
     arms = {}
-    pos = 0
-    arm_re = re.compile(r"\s*SchemaNode::([A-Za-z0-9]+)\s*(\((?:[^()]|\([^()]*\))*\))?\s*=>\s*\{", re.S)
-    while True:
-        m = arm_re.match(body, pos)
-        if not m:
-            if body[pos:].strip():
-                raise TranslateError("cannot parse arm at: %r" % body[pos:pos + 60])
-            break
-        kind = m.group(1)
-        st = m.end() - 1
-        en = balanced(body, st)
+    for pat, guard, abody in arms_match[2]:
+        if guard is not None:
+            raise TranslateError("guard in the registration match")
+        if pat[0] not in ("p_path", "p_ts", "p_struct"):
+            raise TranslateError("cannot parse arm pattern: %s" % A.pat_text(pat))
+        segs = pat[1][1]
+        if len(segs) != 2 or segs[0][0] != "SchemaNode":
+            raise TranslateError("cannot parse arm pattern: %s" % A.pat_text(pat))
+        kind = segs[1][0]
         if kind in arms:
             raise TranslateError("duplicate arm %s" % kind)
-        arms[kind] = body[st + 1:en - 1]
-        pos = en
-        # optional trailing comma
-        mm = re.match(r"\s*,", body[pos:])
-        if mm:
-            pos += mm.end()
+        arms[kind] = (pat, list(N.as_block(abody)[1]))
     if sorted(arms) != sorted(KINDS):
         raise TranslateError("node kinds changed: %s" % sorted(arms))
     out = []
@@ -80,63 +219,70 @@ def translate(path):
     for i, k in enumerate(keys):
         out.append("  | K%s => %d" % (k, i))
     out.append("  end.")
-    # the closures' bodies are pinned (their meaning is written by hand in model/Schema.v)
-    def norm(x):
-        return re.sub(r"\s+", "", x)
-    pins = {
-        "register_name": "letregister_name=|name:&Name|{per_alias.borrow_mut().insert(Cow::Owned(name.name().to_owned()),(discriminant,schema_node),);per_name.borrow_mut().insert(Cow::Owned(name.fully_qualified_name().to_owned()),(discriminant,schema_node),);};",
-        "register_type_name": "letregister_type_name=|type_name:&'staticstr|{per_name.borrow_mut().insert(Cow::Borrowed(type_name),(discriminant,schema_node));};",
-        "register_type_name_alias": "letregister_type_name_alias=|type_name:&'staticstr|{per_alias.borrow_mut().insert(Cow::Borrowed(type_name),(discriminant,schema_node));};",
-        "merge": "letmutper_name=per_name.into_inner();for(alias,variant)inper_alias.into_inner(){per_name.entry(alias).or_insert(variant);}",
-        "register": "match*val{NoneSomeOrConflict::None=>{*val=NoneSomeOrConflict::Some{discriminant_and_schema_node:(discriminant,schema_node),priority,}}NoneSomeOrConflict::Some{priority:old_priority,..}=>{matchold_priority.cmp(&priority){Ordering::Less=>{}Ordering::Equal=>{*val=NoneSomeOrConflict::Conflict{priority:old_priority,};}Ordering::Greater=>{*val=NoneSomeOrConflict::Some{priority,discriminant_and_schema_node:(discriminant,schema_node),};}}}NoneSomeOrConflict::Conflict{priority:old_priority,}=>{ifpriority<old_priority{*val=NoneSomeOrConflict::Some{priority,discriminant_and_schema_node:(discriminant,schema_node),};}}}",
-        "finish": "letper_direct_union_variant=per_direct_union_variant.map(|v|matchv{NoneSomeOrConflict::None=>None,NoneSomeOrConflict::Some{discriminant_and_schema_node,..}=>Some(discriminant_and_schema_node),NoneSomeOrConflict::Conflict{..}=>None,});",
-        "unnamed": "self.per_direct_union_variant[variantasusize].map(|(i,n)|(i,n.as_ref()))",
-        "named": "self.per_name.get(name).copied().map(|(i,n)|(i,n.as_ref()))",
-        "index": "letval=&mutper_direct_union_variant[variantasusize];",
-    }
-    nsrc = norm(src)
-    for what, pin in pins.items():
-        if pin not in nsrc:
-            raise TranslateError("the code of %s is not in the pinned shape" % what)
     tn, rn, regs = [], [], []
     dec_bytes_name = dec_fixed_alias = None
     for kind in KINDS:
-        a = arms[kind]
-        if kind == "Decimal":
-            m = re.search(r"match\s+repr\s*\{\s*DecimalRepr::Fixed\(\s*fixed\s*\)\s*=>\s*\{(.*?)\}\s*,?\s*DecimalRepr::Bytes\s*=>\s*\{(.*?)\}\s*,?\s*\}", a, re.S)
-            if not m:
-                raise TranslateError("Decimal arm: match repr not in the expected shape")
-            fixed_body, bytes_body = m.group(1), m.group(2)
-            fa = re.findall(r"register_type_name_alias\(\s*\"([^\"]*)\"\s*\)\s*;", fixed_body)
-            fn_ = re.findall(r"register_name\(\s*&fixed\.name\s*\)\s*;", fixed_body)
-            rest = re.sub(r"register_type_name_alias\([^)]*\)\s*;|register_name\(\s*&fixed\.name\s*\)\s*;", "", fixed_body)
-            if rest.strip() or len(fn_) != 1 or len(fa) > 1:
-                raise TranslateError("Decimal/Fixed arm not in the expected shape")
-            bn = re.findall(r"register_type_name\(\s*\"([^\"]*)\"\s*\)\s*;", bytes_body)
-            rest = re.sub(r"register_type_name\([^)]*\)\s*;", "", bytes_body)
-            if rest.strip() or len(bn) > 1:
-                raise TranslateError("Decimal/Bytes arm not in the expected shape")
-            dec_fixed_alias = fa[0] if fa else None
-            dec_bytes_name = bn[0] if bn else None
-            a = a[:m.start()] + a[m.end():]
-            fixed_name = True
-        else:
-            fixed_name = False
-        names = re.findall(r"register_type_name\(\s*\"([^\"]*)\"\s*\)", a)
+        pat, stmts = arms[kind]
+        name_binder = field_binder(pat, "name")
+        calls = calls_of(stmts, None)
+        fixed_name = False
+        names, plain_name, rr = [], False, []
+        for r, args in calls:
+            if r == "match":
+                if kind != "Decimal":
+                    raise TranslateError("nested match in arm %s" % kind)
+                e = args
+                repr_binder = field_binder(pat, "repr")
+                if repr_binder is None or not N.is_var(e[1], repr_binder):
+                    raise TranslateError("Decimal arm: match repr not in the expected shape")
+                sub = {}
+                for p2, g2, b2 in e[2]:
+                    if g2 is not None or p2[0] not in ("p_path", "p_ts") or A.text(p2[1]).split(" ")[0] != "DecimalRepr":
+                        raise TranslateError("Decimal arm: match repr not in the expected shape")
+                    sub[p2[1][1][-1][0]] = (p2, calls_of(N.as_block(b2)[1], None))
+                if sorted(sub) != ["Bytes", "Fixed"]:
+                    raise TranslateError("Decimal arm: match repr not in the expected shape")
+                fp, fcalls = sub["Fixed"]
+                fb = fp[2][0][3] if fp[0] == "p_ts" and len(fp[2]) == 1 and fp[2][0][0] == "p_ident" else None
+                fa, fnames = [], 0
+                for r2, a2 in fcalls:
+                    if r2 == "register_type_name_alias":
+                        fa.append(str_arg(a2, "register_type_name_alias"))
+                    elif r2 == "register_name" and fb is not None and len(a2) == 1 and A.text(a2[0]) == "& %s . name" % fb:
+                        fnames += 1
+                    else:
+                        raise TranslateError("Decimal/Fixed arm not in the expected shape")
+                if fnames != 1 or len(fa) > 1:
+                    raise TranslateError("Decimal/Fixed arm not in the expected shape")
+                bn = []
+                for r2, a2 in sub["Bytes"][1]:
+                    if r2 != "register_type_name":
+                        raise TranslateError("Decimal/Bytes arm not in the expected shape")
+                    bn.append(str_arg(a2, "register_type_name"))
+                if len(bn) > 1:
+                    raise TranslateError("Decimal/Bytes arm not in the expected shape")
+                dec_fixed_alias = fa[0] if fa else None
+                dec_bytes_name = bn[0] if bn else None
+                fixed_name = True
+            elif r == "register_type_name":
+                names.append(str_arg(args, "register_type_name"))
+            elif r == "register_name":
+                if name_binder is None or len(args) != 1 or not N.is_var(args[0], name_binder):
+                    raise TranslateError("unrecognised register_name call in %s" % kind)
+                if plain_name:
+                    raise TranslateError("unrecognised register_name call in %s" % kind)
+                plain_name = True
+            elif r == "register":
+                if len(args) != 2 or args[0][0] != "path" or len(args[0][1]) != 2 or args[0][1][0][0] != "UnionVariantLookupKey" \
+                        or args[1][0] != "lit" or not args[1][1].isdigit():
+                    raise TranslateError("unrecognised register call in %s" % kind)
+                rr.append((args[0][1][1][0], args[1][1]))
+            else:
+                raise TranslateError("unrecognised statements in arm %s" % kind)
         if len(names) > 1:
             raise TranslateError("several type names in %s" % kind)
-        plain_name = bool(re.search(r"register_name\(\s*name\s*\)", a))
-        n_name_calls = len(re.findall(r"register_name\(", a))
-        if n_name_calls != int(plain_name):
-            raise TranslateError("unrecognised register_name call in %s" % kind)
-        rr = re.findall(r"register\(\s*UnionVariantLookupKey::([A-Za-z0-9]+)\s*,\s*(\d+)\s*\)", a)
-        if len(rr) != len(re.findall(r"\bregister\(", a)):
-            raise TranslateError("unrecognised register call in %s" % kind)
-        rest = re.sub(r"register_type_name\([^)]*\)\s*;?", "", a)
-        rest = re.sub(r"register\([^)]*\)\s*;?", "", rest)
-        rest = re.sub(r"register_name\([^)]*\)\s*;?", "", rest)
-        if rest.strip():
-            raise TranslateError("unrecognised statements in arm %s: %r" % (kind, rest.strip()[:80]))
+        if kind == "Decimal" and not fixed_name:
+            raise TranslateError("Decimal arm: match repr not in the expected shape")
         tn.append((kind, names[0] if names else None))
         rn.append((kind, "RnName" if plain_name else ("RnDecimalFixedName" if fixed_name else "RnNone")))
         regs.append((kind, rr))
